@@ -230,6 +230,8 @@ pub struct Exec {
     /// undos[i] = the still valid `UndoState`s describing "before the (i+1)-th retained addition"
     undos: Vec<Vec<UndoState>>,
     pub trees: Vec<T>,
+    /// `shared` flag of each retained addition
+    pub flags: Vec<bool>,
     pub done: bool,
 }
 
@@ -246,7 +248,7 @@ impl Exec {
             Sent::Pair(_) => Some(a.new_pair(NodePtr::NIL, NodePtr::NIL).unwrap()),
             Sent::Atom(m) => Some(a.new_atom(m).unwrap()),
         };
-        Exec { a, sentinel, sent: sent.clone(), memo: HashMap::new(), ser: Serializer::new(sentinel), undos: vec![], trees: vec![], done: false }
+        Exec { a, sentinel, sent: sent.clone(), memo: HashMap::new(), ser: Serializer::new(sentinel), undos: vec![], trees: vec![], flags: vec![], done: false }
     }
 
     fn build(&mut self, t: &T, shared: bool) -> NodePtr {
@@ -297,6 +299,7 @@ impl Exec {
                         }
                         self.undos[i].push(undo);
                         self.trees.push(tree.clone());
+                        self.flags.push(*shared);
                         self.done = done;
                         Ok(StepOut::Add(done, self.ser.get_ref().clone()))
                     }
@@ -310,6 +313,7 @@ impl Exec {
                     return Err(());
                 }
                 self.trees.truncate(idx);
+                self.flags.truncate(idx);
                 self.undos.truncate(idx + 1);
                 self.done = false;
                 Ok(StepOut::Undo(self.ser.get_ref().clone()))
@@ -750,53 +754,115 @@ fn describe(sent: &Sent, steps: &[Step]) -> String {
     format!("INC x {} {}", sent.fmt(), steps.iter().map(|s| s.fmt()).collect::<Vec<_>>().join(";"))
 }
 
-/// The decidable defect region of the two known findings of C19 (KNOWN_FINDINGS.jsonl):
-/// L — some addition contains the sentinel more than once (`update()` hands the parents of the *last*
-///     traversed sentinel entry to the next root, `add` continues at the *first* one);
-/// M — a `restore` is followed by another `add` (also one of the additions by which the oracle completes a
-///     partial history) (`restore()` does not take back the parent links and
-///     the moved sentinel parents that the undone `update()` recorded).
-/// N — a node (`NodePtr`) that contains the sentinel below it is used more than once over the history
-///     (`adds` steps: the same sub-tree value with a sentinel inside occurs twice): `node_map` gives
-///     both occurrences one `NodeEntry` although they are completed by different additions.
-/// Outside this region every wrong decode is a new violation.
+/// Shape predicates of the three known findings of C19 (KNOWN_FINDINGS.jsonl).  They are necessary
+/// conditions only; a wrong decode is *attributed* to a finding by `attribute` below, which also
+/// re-runs the history without the suspected ingredient.
+/// L — an addition contains the sentinel more than once and another addition follows (`update()` hands
+///     the parents of the *last* traversed sentinel entry to the next root, `add` continues at the
+///     *first* one);
+/// M — a `restore` is followed by another `add` (`restore()` does not take back the parent links, and
+///     the moved sentinel parents, that the undone `update()` recorded);
+/// N — a node (`NodePtr`) with the sentinel below it is used more than once (`adds` steps: the same
+///     sub-tree value with a sentinel inside occurs twice): `node_map` gives both occurrences one
+///     `NodeEntry` although they are completed by different additions.
+fn shape_multi_followed(adds: &[(bool, T)], m: Option<&Vec<u8>>) -> bool {
+    adds.iter().enumerate().any(|(i, (_, t))| i + 1 < adds.len() && holes(t, m) >= 2)
+}
+
+fn shape_shared_dup(adds: &[(bool, T)], m: Option<&Vec<u8>>) -> bool {
+    let Some(mk) = m else { return false };
+    // sub-trees with a sentinel inside, over all `adds` trees; returns whether `t` has a hole
+    fn walk(t: &T, mk: &Vec<u8>, seen: &mut std::collections::HashSet<T>, dup: &mut bool) -> bool {
+        match t {
+            T::Atom(b) => b == mk,
+            T::Pair(l, r) => {
+                let hl = walk(l, mk, seen, dup);
+                let hr = walk(r, mk, seen, dup);
+                if (hl || hr) && !seen.insert(t.clone()) {
+                    *dup = true;
+                }
+                hl || hr
+            }
+        }
+    }
+    let mut seen = std::collections::HashSet::new();
+    let mut dup = false;
+    for (shared, tree) in adds {
+        if *shared {
+            walk(tree, mk, &mut seen, &mut dup);
+        }
+    }
+    dup
+}
+
+/// `filled`: the checker completes a partial history with further additions
+fn shape_undo_then_add(steps: &[Step], filled: bool) -> bool {
+    match steps.iter().position(|s| matches!(s, Step::Undo { .. })) {
+        Some(i) => filled || steps[i..].iter().any(|s| matches!(s, Step::Add { .. })),
+        None => false,
+    }
+}
+
+/// for the distribution counters: which shape a history has (first match)
 pub fn known_region(sent: &Sent, steps: &[Step], filled: bool) -> Option<&'static str> {
     let m = sent.marker();
-    if steps.iter().any(|s| matches!(s, Step::Add { tree, .. } if holes(tree, m) >= 2)) {
+    let adds: Vec<(bool, T)> = steps.iter().filter_map(|s| if let Step::Add { shared, tree } = s { Some((*shared, tree.clone())) } else { None }).collect();
+    if shape_multi_followed(&adds, m) || (filled && adds.iter().any(|(_, t)| holes(t, m) >= 2)) {
         return Some("KNOWN-L-incremental-multi-sentinel");
     }
-    if let Some(mk) = m {
-        // sub-trees with a sentinel inside, over all `adds` trees; returns whether `t` has a hole
-        fn walk(t: &T, mk: &Vec<u8>, seen: &mut std::collections::HashSet<T>, dup: &mut bool) -> bool {
-            match t {
-                T::Atom(b) => b == mk,
-                T::Pair(l, r) => {
-                    let hl = walk(l, mk, seen, dup);
-                    let hr = walk(r, mk, seen, dup);
-                    if (hl || hr) && !seen.insert(t.clone()) {
-                        *dup = true;
-                    }
-                    hl || hr
-                }
-            }
+    if shape_shared_dup(&adds, m) {
+        return Some("KNOWN-N-incremental-shared-sentinel-node");
+    }
+    if shape_undo_then_add(steps, filled) {
+        return Some("KNOWN-M-incremental-undo-stale-parents");
+    }
+    None
+}
+
+/// does a fresh serializer, fed with exactly these additions (no `restore`), produce bytes that decode to
+/// the assembled tree?
+fn decodes_ok(sent: &Sent, adds: &[(bool, T)]) -> bool {
+    let mut ex = Exec::new(sent, 0);
+    for (shared, tree) in adds {
+        if ex.step(&Step::Add { shared: *shared, tree: tree.clone() }).is_err() {
+            return false;
         }
-        let mut seen = std::collections::HashSet::new();
-        let mut dup = false;
-        for s in steps {
-            if let Step::Add { shared: true, tree } = s {
-                walk(tree, mk, &mut seen, &mut dup);
-            }
-        }
-        if dup {
+    }
+    if !ex.done {
+        return false;
+    }
+    let Some(want) = assemble(&ex.trees, sent.marker()) else { return false };
+    let mut a2 = Allocator::new();
+    let bytes = ex.ser.get_ref().clone();
+    match catch_unwind(AssertUnwindSafe(|| node_from_bytes_backrefs(&mut a2, &bytes))) {
+        Ok(Ok(n)) => same_tree(&a2, n, &want) == Ok(true),
+        _ => false,
+    }
+}
+
+/// Attribute a wrong decode to a known finding, as narrowly as the implementation alone allows:
+/// `retained` = the additions the serializer finally retained (completion fills included).
+///  M: the history has a restore followed by an add, and the same retained additions fed to a fresh
+///     serializer *without* any restore decode correctly;
+///  N: otherwise, the restore-free history shares a sentinel-containing node, and the same additions
+///     built with fresh nodes decode correctly;
+///  L: otherwise, the restore-free history (which fails too) has an addition with two or more sentinels
+///     that is followed by another addition.  (There is no equivalent history without the repeated
+///     sentinel to compare with: the API offers no other way to continue inside a tree twice.)
+/// Anything else is a new violation.
+pub fn attribute(sent: &Sent, steps: &[Step], filled: bool, retained: &[(bool, T)]) -> Option<&'static str> {
+    let m = sent.marker();
+    if shape_undo_then_add(steps, filled) && decodes_ok(sent, retained) {
+        return Some("KNOWN-M-incremental-undo-stale-parents");
+    }
+    if shape_shared_dup(retained, m) {
+        let unshared: Vec<(bool, T)> = retained.iter().map(|(_, t)| (false, t.clone())).collect();
+        if decodes_ok(sent, &unshared) {
             return Some("KNOWN-N-incremental-shared-sentinel-node");
         }
     }
-    let first_undo = steps.iter().position(|s| matches!(s, Step::Undo { .. }));
-    if let Some(i) = first_undo {
-        // `filled`: the checker completes a partial history with further additions
-        if filled || steps[i..].iter().any(|s| matches!(s, Step::Add { .. })) {
-            return Some("KNOWN-M-incremental-undo-stale-parents");
-        }
+    if shape_multi_followed(retained, m) {
+        return Some("KNOWN-L-incremental-multi-sentinel");
     }
     None
 }
@@ -870,11 +936,6 @@ pub fn check_history(rep: &mut OracleReport, sent: &Sent, steps: &[Step], rng: &
         Some(r) if r.contains("-N-") => "region:N-shared-sentinel-node",
         Some(_) => "region:M-undo-then-add",
     });
-    // only a wrong decode inside the region of a known finding is reported under that finding's name
-    let dk = match region {
-        Some(r) => format!("{} {}", r, d),
-        None => d.clone(),
-    };
     let fill = ex.fill_atom();
     let mut guard = 0;
     while !ex.done {
@@ -901,8 +962,24 @@ pub fn check_history(rep: &mut OracleReport, sent: &Sent, steps: &[Step], rng: &
     }
     let classic = trees::encode(&want);
     rep.hit(if bytes.len() <= classic.len() { "len<=classic" } else { "len>classic" });
+    // only a wrong decode that `attribute` ties to a known finding is reported under that finding's name
+    let retained: Vec<(bool, T)> = ex.flags.iter().cloned().zip(ex.trees.iter().cloned()).collect();
+    let mut attributed: Option<Option<&'static str>> = None;
+    let mut dk_of = |rep: &mut OracleReport| -> (Option<&'static str>, String) {
+        let r = *attributed.get_or_insert_with(|| attribute(sent, steps, !complete, &retained));
+        rep.hit(match r {
+            None => "wrong-decode:unattributed",
+            Some(x) if x.contains("-L-") => "wrong-decode:L",
+            Some(x) if x.contains("-N-") => "wrong-decode:N",
+            Some(_) => "wrong-decode:M",
+        });
+        (r, match r {
+            Some(x) => format!("{} {}", x, d),
+            None => d.clone(),
+        })
+    };
     // at most three reports per known finding, so that they cannot crowd out a new one (the report is capped)
-    let quota = |rep: &OracleReport| match region {
+    let quota = |rep: &OracleReport, region: Option<&'static str>| match region {
         Some(r) => rep.failures.iter().filter(|(_, w)| w.starts_with(r)).count() < 3,
         None => true,
     };
@@ -914,7 +991,8 @@ pub fn check_history(rep: &mut OracleReport, sent: &Sent, steps: &[Step], rng: &
                 let same = same_tree(&a2, n, &want);
                 if same != Ok(true) {
                     rep.hit("wrong-decode");
-                    if !quota(rep) {
+                    let (region, dk) = dk_of(rep);
+                    if !quota(rep, region) {
                         continue;
                     }
                     let got = match same {
@@ -926,7 +1004,8 @@ pub fn check_history(rep: &mut OracleReport, sent: &Sent, steps: &[Step], rng: &
             }
             Ok(Err(e)) => {
                 rep.hit("wrong-decode");
-                if quota(rep) {
+                let (region, dk) = dk_of(rep);
+                if quota(rep, region) {
                     rep.fail(name, format!("{} output={} decode error {}", dk, short(&bytes), err_kind(&e)))
                 }
             }
